@@ -649,7 +649,9 @@ start:
 						} else {
 							s.setOuter(tuple.Tag, MaybeNil)
 						}
-						s.setOuter(v, s.get(tuple.Tag).Inner)
+						// In the default branch, the value is the switched-over
+						// interface value itself, not the value stored in it.
+						s.set(v, s.get(tuple.Tag))
 					} else {
 						// There is no Extract for the 'untyped nil' case,
 						// which means that executing any Extract from a type
